@@ -45,7 +45,7 @@ def load(R):
         return VObj(o, "FunctionReferenceWithArgHash")
     R.obj_method_hooks["fn_reference_with_arg_hash"] = fwh
     R.contract("reference:FunctionReference.from_qualified_name", assumed=True, types={"qualified_name": TStr}, returns=TObj("nn:FunctionReference"),
-               ensures=["result.qualified_name == qualified_name"], pure=True,
+               ensures=["result.qualified_name == qualified_name"],
                notes="C12 proves naming and exception freedom of from_qualified_name for well-formed names")
     R.func_hooks["storage:StorageBackend.__init__"] = None
     del R.func_hooks["storage:StorageBackend.__init__"]
@@ -65,11 +65,9 @@ def load(R):
     R.spec("ISMAP", ["o"], "o is not None and kind_of(o) == 5")
     R.spec("REP", ["b"],
            "ISMAP(b.mementos) and ISMAP(b.result) and ISMAP(b.metadata) and not same(b.mementos, b.result) and not same(b.mementos, b.metadata) and not same(b.result, b.metadata) "
-           "and forall(str, lambda q: implies(q in b.mementos, ISMAP(b.mementos[q]) and not same(b.mementos[q], b.mementos) and not same(b.mementos[q], b.result) and not same(b.mementos[q], b.metadata))) "
-           "and forall(str, lambda q: implies(q in b.metadata, ISMAP(b.metadata[q]) and not same(b.metadata[q], b.mementos) and not same(b.metadata[q], b.result) and not same(b.metadata[q], b.metadata))) "
-           "and forall(str, str, lambda p, q: implies(p in b.mementos and q in b.mementos and p != q, not same(b.mementos[p], b.mementos[q]))) "
-           "and forall(str, str, lambda p, q: implies(p in b.metadata and q in b.metadata and p != q, not same(b.metadata[p], b.metadata[q]))) "
-           "and forall(str, str, lambda p, q: implies(p in b.mementos and q in b.metadata, not same(b.mementos[p], b.metadata[q])))")
+           "and row_slot(b.mementos) is None and row_slot(b.result) is None and row_slot(b.metadata) is None and allocated(b.mementos) and allocated(b.result) and allocated(b.metadata) "
+           "and forall(str, lambda q: implies(q in b.mementos, ISMAP(b.mementos[q]) and allocated(b.mementos[q]) and same(row_slot(b.mementos[q]), slot(b.mementos, q)))) "
+           "and forall(str, lambda q: implies(q in b.metadata, ISMAP(b.metadata[q]) and allocated(b.metadata[q]) and same(row_slot(b.metadata[q]), slot(b.metadata, q))))")
     # the dictionary of memoized calls / of results is as it was at entry
     R.spec("CALLS_SAME", ["b"], "forall(str, str, lambda q, h: HASM(b, q, h) == old(HASM(b, q, h)) and implies(HASM(b, q, h), same(GETM(b, q, h), old(GETM(b, q, h)))))")
     R.spec("CALLS_SAME_BUT", ["b", "q0", "h0"], "forall(str, str, lambda q, h: implies(not (q == q0 and h == h0), HASM(b, q, h) == old(HASM(b, q, h)) and implies(HASM(b, q, h), same(GETM(b, q, h), old(GETM(b, q, h))))))")
@@ -82,7 +80,8 @@ def load(R):
     R.spec("META_SAME_BUT", ["b", "k0"], "forall(str, str, lambda k, mk: implies(k != k0, (k in b.metadata and mk in b.metadata[k]) == old(k in b.metadata and mk in b.metadata[k]) "
                                          "and implies(k in b.metadata and mk in b.metadata[k], same(b.metadata[k][mk], old(b.metadata[k][mk])))))")
     R.spec("STRUCT_SAME", ["b"], "same(b.mementos, old(b.mementos)) and same(b.result, old(b.result)) and same(b.metadata, old(b.metadata))")
-    MAPS = ["heap:$mh", "heap:$mv"]
+    RO_TYPED = "isinstance(self.read_only, bool) or self.read_only is None"     # established by StorageBackend.__init__ (C19)
+    MAPS = ["heap:$mh", "heap:$mv", "heap:$mo"]
     P = "storage_memory:MemoryStorageBackend."
 
     R.contract(P + "__init__", prop="C05", types={"self": B, "config": TObj(), "read_only": TObj()},
@@ -118,11 +117,12 @@ def load(R):
     R.contract(P + "list_functions", prop="C05", types={"self": B}, returns=TList(TObj("FunctionReference")),
                requires=["REP(self)"],
                ensures=["forall(int, lambda j: implies(0 <= j and j < len(result), LIVE(self, result[j].qualified_name)))",
+                        # (the converse -- every live function is listed -- needs a witness through the filter's rank and is NOT proved here)
                         "CALLS_SAME(self)", "LIVE_SAME(self)", "RESULTS_SAME(self)", "STRUCT_SAME(self)"])
 
     # ---- memoize: dictionary write at (QN, AH); read-only: nothing
     R.contract(P + "memoize", prop="C05", types={"self": B, "key_override": TOpt(TStr), "memento": M, "result": TObj()},
-               requires=["REP(self)", "isinstance(self.read_only, bool) or self.read_only is None"],
+               requires=["REP(self)", RO_TYPED],
                ensures=["REP(self)", "STRUCT_SAME(self)",
                         "implies(truthy(self.read_only), CALLS_SAME(self) and RESULTS_SAME(self) and LIVE_SAME(self) and META_SAME(self))",
                         "implies(not truthy(self.read_only), HASM(self, QN(memento), AH(memento)) and same(GETM(self, QN(memento), AH(memento)), memento))",
@@ -134,7 +134,7 @@ def load(R):
     # ---- forgetting removes exactly its scope
     RO = {"ValueError": ["truthy(self.read_only)", "CALLS_SAME(self)", "RESULTS_SAME(self)", "META_SAME(self)", "LIVE_SAME(self)", "STRUCT_SAME(self)"]}
     R.contract(P + "forget_call", prop="C05", types={"self": B, "fn_with_arg_hash": FWH},
-               requires=["REP(self)"],
+               requires=["REP(self)", RO_TYPED],
                ensures=["REP(self)", "STRUCT_SAME(self)", "not truthy(self.read_only)",
                         "not HASM(self, fn_with_arg_hash.fn_reference.qualified_name, fn_with_arg_hash.arg_hash)",
                         "MKEY(fn_with_arg_hash.fn_reference.qualified_name, fn_with_arg_hash.arg_hash) not in self.result",
@@ -144,14 +144,14 @@ def load(R):
                         "META_SAME_BUT(self, MKEY(fn_with_arg_hash.fn_reference.qualified_name, fn_with_arg_hash.arg_hash))"],
                raises=RO, modifies=MAPS)
     R.contract(P + "forget_everything", prop="C05", types={"self": B},
-               requires=["REP(self)"],
+               requires=["REP(self)", RO_TYPED],
                ensures=["REP(self)", "STRUCT_SAME(self)", "not truthy(self.read_only)", "forall(str, str, lambda q, h: not HASM(self, q, h))", "forall(str, lambda k: k not in self.result)",
                         "forall(str, lambda k: k not in self.metadata)", "forall(str, lambda q: not LIVE(self, q))"],
                raises=RO, modifies=MAPS)
 
     # ---- custom metadata
     R.contract(P + "write_metadata", prop="C05", types={"self": B, "fn_with_arg_hash": FWH, "key": TStr, "value": TObj(), "store_with_content_key": TOpt(VKey)},
-               requires=["REP(self)"],
+               requires=["REP(self)", RO_TYPED],
                ensures=["REP(self)", "STRUCT_SAME(self)", "not truthy(self.read_only)", "CALLS_SAME(self)", "RESULTS_SAME(self)", "LIVE_SAME(self)",
                         "MKEY(fn_with_arg_hash.fn_reference.qualified_name, fn_with_arg_hash.arg_hash) in self.metadata",
                         "key in self.metadata[MKEY(fn_with_arg_hash.fn_reference.qualified_name, fn_with_arg_hash.arg_hash)]",
@@ -167,3 +167,8 @@ def load(R):
                         "implies(not old(MKEY(fn_with_arg_hash.fn_reference.qualified_name, fn_with_arg_hash.arg_hash) in self.metadata "
                         "and key in self.metadata[MKEY(fn_with_arg_hash.fn_reference.qualified_name, fn_with_arg_hash.arg_hash)]), result is None)"],
                modifies=MAPS, labels={"use_defaults_at_call": True})
+
+    R.contract(P + "is_all_memoized", prop="C05", types={"self": B, "fns": TList(TObj("nn:FunctionReferenceWithArguments"))}, returns=TBool,
+               requires=["REP(self)"],
+               ensures=["result == forall(int, lambda j: implies(0 <= j and j < len(fns), HASM(self, fns[j].fn_reference.qualified_name, fns[j].arg_hash)))",
+                        "CALLS_SAME(self)", "LIVE_SAME(self)", "RESULTS_SAME(self)", "STRUCT_SAME(self)"])
